@@ -47,7 +47,7 @@ def exhaustive(tier):
 
 def model_runs(tier):
     from harness import algo
-    return algo.hopcroft(tier) + algo.minimize_equiv(tier)
+    return algo.hopcroft(tier) + algo.minimize_equiv(tier) + algo.names(tier, "group")
 
 
 def hashseeds(tier):
